@@ -413,13 +413,6 @@ theorem lastWrite_cons (p : MapPacket) (ps : List MapPacket) (k : Int) (x z : Na
   simp only [lastWrite]
   cases lastWrite ps k x z <;> rfl
 
-/-- The fields of map `k` after the history, in terms of the last packet addressed to it. -/
-def FieldsSpec (hist : List MapPacket) (s s' : MapSet) (k : Int) : Prop :=
-  match lastPacket hist k with
-  | none => dictGet k s' = dictGet k s
-  | some q => ∃ m, dictGet k s' = some m ∧ m.id = some k ∧ m.scale = some q.scale ∧
-      m.icons = q.icons ∧ m.isTrackingPosition = q.isTrackingPosition ∧ m.isLocked = q.isLocked
-
 theorem replay_spec (hist : List MapPacket) :
     ∀ s : MapSet, MapSet.WF s → (∀ p ∈ hist, p.InRange) →
       ∃ s', replayMaps hist s = .ok s' ∧ MapSet.WF s' ∧ keys s' = refKeys hist (keys s) ∧
@@ -543,6 +536,24 @@ theorem applyToMapSetFx_eq (p : MapPacket) (s : MapSet) :
   cases dictGet p.mapId s with
   | some m => rfl
   | none => simp only [dictSet_dictSet, Option.getD_none]
+
+/-- A history that raises does so at its first raising packet. -/
+theorem replayMapsFx_err (hist : List MapPacket) :
+    ∀ (s s' : MapSet) (e : Err), replayMapsFx hist s = (s', some e) →
+      ∃ pre p post s1, hist = pre ++ p :: post ∧ replayMapsFx pre s = (s1, none) ∧
+        applyToMapSetFx p s1 = (s', some e) := by
+  induction hist with
+  | nil => intro s s' e h; simp [replayMapsFx] at h
+  | cons q qs ih =>
+    intro s s' e h
+    unfold replayMapsFx at h
+    rcases hq : applyToMapSetFx q s with ⟨t, _ | e'⟩
+    · simp only [hq] at h
+      obtain ⟨pre, p, post, s1, rfl, hpre, hp⟩ := ih t s' e h
+      exact ⟨q :: pre, p, post, s1, rfl, by simp only [replayMapsFx, hq, hpre], hp⟩
+    · simp only [hq, Prod.mk.injEq, Option.some.injEq] at h
+      obtain ⟨rfl, rfl⟩ := h
+      exact ⟨[], q, qs, s, rfl, rfl, hq⟩
 
 /-! ### The specification determines the state -/
 
